@@ -653,16 +653,25 @@ func (c *Ctx) rulesR5misc(only string, a *coreAnchors) {
 			return
 		}
 		n := 0
-		for _, l := range rangeLoops(pa) {
-			if l.x == nil || (loadOfField(l.x) != fAdd && fieldOf(l.x) != fAdd) {
+		var addLoops []rloopInfo
+		for _, hf := range c.hostedFns(pa) {
+			addLoops = append(addLoops, rangeLoops(hf)...)
+		}
+		for _, l := range addLoops {
+			// a parameter of a hosted helper: what parseAdd passes for it
+			lx := l.x
+			if lx != nil {
+				lx = c.hostedArg(lx, pa)
+			}
+			if lx == nil || (loadOfField(lx) != fAdd && fieldOf(lx) != fAdd) {
 				// value-typed State: the field is extracted with ssa.Field
 				isAdd := false
-				if fv, ok := l.x.(*ssa.Field); ok {
+				if fv, ok := lx.(*ssa.Field); ok {
 					if st := structOf(fv.X.Type()); st != nil && st.Field(fv.Field) == fAdd {
 						isAdd = true
 					}
 				}
-				if u, ok := l.x.(*ssa.UnOp); ok && u.Op == token.MUL {
+				if u, ok := lx.(*ssa.UnOp); ok && u.Op == token.MUL {
 					if fa, ok := u.X.(*ssa.FieldAddr); ok && fieldOf(fa) == fAdd {
 						isAdd = true
 					}
